@@ -3,7 +3,10 @@
 (i)   value-set dataflow on the discriminant of an immutable place along dominating switches (And / Or never reach the
       second match in BinOperation::exec);
 (ii)  never-constructed: the variants whose arm panics are never stored into that field by any aggregate in the crate;
-(iii) natives with #[var_type(..)] on a &Variable parameter: every declared kind has a non-panicking arm."""
+(iii) natives with #[var_type(..)] on a &Variable parameter: every declared kind has a non-panicking arm
+      (a raw Variable parameter without #[var_type] is declared `any`: every kind)."""
+import re
+
 from ..engine import RuleResult
 from ..model import enum_switches, aggregates, op_local
 from .export import exports, closure_imports, single_def
@@ -180,8 +183,14 @@ def run(ctx):
         hb = e["holder"]
         for idx, (pname, tx) in enumerate(e["params"]):
             if tx is not None:
-                continue
-            kinds = _declared_kinds(hb, e, idx)
+                if re.sub(r"'[a-z_0-9]+ ", "", tx) not in ("&variable::Variable", "variable::Variable"):
+                    continue
+                # no #[var_type]: the parameter is declared `any` (TypeOf for Variable), so every kind can arrive
+                kinds = {v["name"] for v in lib.adts["variable::Variable"]["variants"]}
+                declared_any = True
+            else:
+                kinds = _declared_kinds(hb, e, idx)
+                declared_any = False
             if not kinds:
                 continue
             sws = enum_switches(wrapped, "variable::Variable")
@@ -192,7 +201,8 @@ def run(ctx):
             bad = sorted(k for k in kinds if (k in sw["arms"] and panics(wrapped, sw["arms"][k])) or (k not in sw["arms"] and panics(wrapped, sw["otherwise"])))
             key = "variant:native|%s|%s" % (ci[3].callee, pname)
             if bad:
-                res.bad(key, "%s declares parameter `%s` as %s but kind(s) %s fall into its panicking arm" % (ci[3].callee, pname, sorted(kinds), bad), wrapped.where())
+                res.bad(key, "%s declares parameter `%s` as %s but kind(s) %s fall into its panicking arm" %
+                        (ci[3].callee, pname, "any (it has no #[var_type])" if declared_any else sorted(kinds), bad), wrapped.where())
             else:
                 res.ok(key, wrapped.where(), "declared kinds %s all have a non-panicking arm" % sorted(kinds))
     res.floor(n, 3, "natives_with_var_type")
